@@ -20,9 +20,12 @@ type exprCtx struct {
 	w     *World
 	names map[ssa.Value]string
 	depth int
+	busy  map[ssa.Value]bool
 }
 
-func newExprCtx(w *World) *exprCtx { return &exprCtx{w: w, names: map[ssa.Value]string{}} }
+func newExprCtx(w *World) *exprCtx {
+	return &exprCtx{w: w, names: map[ssa.Value]string{}, busy: map[ssa.Value]bool{}}
+}
 
 func (c *exprCtx) sym(v ssa.Value, prefix string) string {
 	if n, ok := c.names[v]; ok {
@@ -172,6 +175,11 @@ func (c *exprCtx) expr(v ssa.Value) string {
 		if isIntType(x.Type()) {
 			return c.sym(x, "i")
 		}
+		if c.busy[x] {
+			return "@"
+		}
+		c.busy[x] = true
+		defer delete(c.busy, x)
 		var parts []string
 		seen := map[string]bool{}
 		for _, e := range x.Edges {
@@ -195,7 +203,14 @@ func (c *exprCtx) expr(v ssa.Value) string {
 	case *ssa.MakeInterface:
 		return c.expr(x.X)
 	case *ssa.BinOp:
-		return "(" + c.expr(x.X) + " " + x.Op.String() + " " + c.expr(x.Y) + ")"
+		op := x.Op.String()
+		switch x.Op {
+		case token.ADD, token.SUB, token.MUL, token.QUO, token.REM:
+			if b, ok := x.Type().Underlying().(*types.Basic); ok && b.Kind() != types.Int && b.Info()&types.IsNumeric != 0 {
+				op += ":" + b.Name()
+			}
+		}
+		return "(" + c.expr(x.X) + " " + op + " " + c.expr(x.Y) + ")"
 	case *ssa.Extract:
 		return c.expr(x.Tuple) + "#" + fmt.Sprint(x.Index)
 	case *ssa.Call:
@@ -407,4 +422,195 @@ func derivesOnlyFrom(v ssa.Value, idx int, fns ...*ssa.Function) ([]*ssa.Call, b
 		calls = append(calls, c)
 	}
 	return calls, len(calls) > 0
+}
+
+// ---- canonical failing conditions ----
+
+// failCond is a branch whose one edge reaches only failure returns,
+// normalised to "the function fails iff L op R" with op in {<,<=,==,!=}
+// (or a boolean/call condition with op "true"/"false").
+type failCond struct {
+	Guards   []string // non-failing branch conditions under which this test is reached
+	L, Op, R string
+	At       ssa.Instruction
+	X, Y     ssa.Value // operands in normalised order (nil for call conditions)
+	Cond     ssa.Value
+}
+
+func (fc failCond) String() string {
+	g := ""
+	if len(fc.Guards) > 0 {
+		g = " [when " + strings.Join(fc.Guards, " && ") + "]"
+	}
+	if fc.R == "" {
+		return fc.Op + "(" + fc.L + ")" + g
+	}
+	return fc.L + " " + fc.Op + " " + fc.R + g
+}
+
+// Core is the condition without guards.
+func (fc failCond) Core() string {
+	if fc.R == "" {
+		return fc.Op + "(" + fc.L + ")"
+	}
+	return fc.L + " " + fc.Op + " " + fc.R
+}
+
+// failsOnly: from block b no return that may report success is reachable
+// without leaving through a loop back-edge... (plain reachability).
+func failsOnly(f *ssa.Function, b *ssa.BasicBlock) bool {
+	p, _ := findBypass(pathQuery{fn: f, startBlock: b, passes: func(ssa.Instruction) bool { return false }, exit: maySucceed})
+	return p == nil
+}
+
+// failConditions extracts the normalised failing conditions of f. A branch
+// is failing when exactly one successor reaches only failure returns
+// (directly returns an error) and that successor is entered only from this branch.
+func failConditions(w *World, f *ssa.Function) []failCond {
+	var out []failCond
+	ex := newExprCtx(w)
+	for _, b := range f.Blocks {
+		if len(b.Instrs) == 0 {
+			continue
+		}
+		iff, ok := b.Instrs[len(b.Instrs)-1].(*ssa.If)
+		if !ok {
+			continue
+		}
+		f0 := directFailure(b.Succs[0])
+		f1 := directFailure(b.Succs[1])
+		if f0 == f1 {
+			continue
+		}
+		failWhenTrue := f0
+		cond := iff.Cond
+		for {
+			u, ok := cond.(*ssa.UnOp)
+			if !ok || u.Op != token.NOT {
+				break
+			}
+			cond = u.X
+			failWhenTrue = !failWhenTrue
+		}
+		fc := failCond{At: iff, Cond: cond}
+		if bo, ok := cond.(*ssa.BinOp); ok && isCmp(bo.Op) {
+			op := bo.Op
+			if !failWhenTrue {
+				op = negateCmp(op)
+			}
+			x, y := bo.X, bo.Y
+			if op == token.GTR || op == token.GEQ {
+				x, y = y, x
+				if op == token.GTR {
+					op = token.LSS
+				} else {
+					op = token.LEQ
+				}
+			}
+			fc.L, fc.Op, fc.R, fc.X, fc.Y = ex.expr(x), op.String(), ex.expr(y), x, y
+			if (op == token.EQL || op == token.NEQ) && fc.L > fc.R {
+				fc.L, fc.R, fc.X, fc.Y = fc.R, fc.L, fc.Y, fc.X
+			}
+		} else {
+			fc.L = ex.expr(cond)
+			if failWhenTrue {
+				fc.Op = "true"
+			} else {
+				fc.Op = "false"
+			}
+		}
+		out = append(out, fc)
+	}
+	// guards: other (non-failing, non-loop-header) branches that decide whether the test is reached
+	isFC := map[*ssa.BasicBlock]bool{}
+	for _, fc := range out {
+		isFC[fc.At.Block()] = true
+	}
+	for i := range out {
+		fb := out[i].At.Block()
+		for _, g := range f.Blocks {
+			if g == fb || isFC[g] || len(g.Instrs) == 0 || !g.Dominates(fb) {
+				continue
+			}
+			iff, ok := g.Instrs[len(g.Instrs)-1].(*ssa.If)
+			if !ok {
+				continue
+			}
+			d0 := edgeDominates(g, g.Succs[0], fb)
+			d1 := edgeDominates(g, g.Succs[1], fb)
+			if d0 == d1 {
+				continue
+			}
+			if isLoopHeader(g) {
+				continue
+			}
+			pol := ""
+			if d1 {
+				pol = "!"
+			}
+			out[i].Guards = append(out[i].Guards, pol+ex.expr(iff.Cond))
+		}
+	}
+	return out
+}
+
+// isLoopCond: the block's branch decides between a loop body and the loop exit.
+func isLoopCond(g *ssa.BasicBlock) bool {
+	for _, s := range g.Succs {
+		// a successor from which g is reachable again => loop body side
+		seen := map[*ssa.BasicBlock]bool{}
+		q := []*ssa.BasicBlock{s}
+		for len(q) > 0 {
+			x := q[0]
+			q = q[1:]
+			if x == g {
+				return true
+			}
+			if seen[x] {
+				continue
+			}
+			seen[x] = true
+			q = append(q, x.Succs...)
+		}
+	}
+	return false
+}
+
+// directFailure: the block (possibly through straight-line successors) ends
+// in a failure return.
+func directFailure(b *ssa.BasicBlock) bool {
+	seen := map[*ssa.BasicBlock]bool{}
+	for b != nil && !seen[b] {
+		seen[b] = true
+		if len(b.Instrs) == 0 {
+			return false
+		}
+		switch t := b.Instrs[len(b.Instrs)-1].(type) {
+		case *ssa.Return:
+			return isFailureReturn(t)
+		case *ssa.Jump:
+			b = b.Succs[0]
+		default:
+			return false
+		}
+	}
+	return false
+}
+
+func negateCmp(op token.Token) token.Token {
+	switch op {
+	case token.EQL:
+		return token.NEQ
+	case token.NEQ:
+		return token.EQL
+	case token.LSS:
+		return token.GEQ
+	case token.LEQ:
+		return token.GTR
+	case token.GTR:
+		return token.LEQ
+	case token.GEQ:
+		return token.LSS
+	}
+	return op
 }
